@@ -604,6 +604,9 @@ func (rs *s3ClientStorage) PutObject(ctx context.Context, bucketName storage.Buc
 	if opts != nil && opts.StorageClass != nil {
 		input.StorageClass = types.StorageClass(*opts.StorageClass)
 	}
+	if opts != nil {
+		input.Tagging = encodeTagging(opts.Tags)
+	}
 	putObjectResult, err := rs.s3Client.PutObject(ctx, input)
 	var notFoundError *types.NotFound
 	if err != nil && errors.As(err, &notFoundError) {
@@ -739,6 +742,13 @@ func (rs *s3ClientStorage) CopyObject(ctx context.Context, srcBucket storage.Buc
 		}
 		if opts.StorageClass != nil {
 			input.StorageClass = types.StorageClass(*opts.StorageClass)
+		}
+		if opts.ReplaceTags {
+			input.TaggingDirective = types.TaggingDirectiveReplace
+			input.Tagging = encodeTagging(opts.Tags)
+			if input.Tagging == nil {
+				input.Tagging = aws.String("")
+			}
 		}
 		input.CopySourceIfMatch = opts.CopySourceConditions.IfMatch
 		input.CopySourceIfNoneMatch = opts.CopySourceConditions.IfNoneMatch
